@@ -630,6 +630,9 @@ class Interp(ExprMixin):
         if name in ('min', 'max') and isinstance(recv, Poly):
             nm = {'min': 'amin', 'max': 'amax'}[name]
             return app(nm, recv, *[P(a) for a in args], **kwargs)
+        if name == 'reshape' and len(args) == 1 and isinstance(args[0], Tup) and args[0].kind != 'vec' and \
+                all(isinstance(i, Poly) for i in args[0].items):
+            args = list(args[0].items)          # x.reshape((a, b)) is x.reshape(a, b)
         return app('m:' + name, P(recv), *[a if isinstance(a, (Poly, Tup, Const, Slice)) else P(a) for a in args],
                    **kwargs)
 
